@@ -161,6 +161,13 @@ pub fn gen_scalar(r: &mut Rng, cfg: &DocCfg) -> Value<'static> {
 
 /// small documents at the edges of the layout: empty keys with payload-free values, empty
 /// strings alone in nested arrays, empty containers before later siblings, minimal sizes
+/// small documents of every kind, used as a complete matrix (all ordered pairs) by the two-document ops
+pub const SMALL_DOCS: &[&str] = &[
+    "[]", "{}", "null", "true", "false", "0", "1", "1.0", "-1", "\"\"", "\"a\"", "[null]", "[[]]", "[{}]", "[1]", "[1.0]",
+    r#"{"a":[]}"#, r#"{"a":{}}"#, "[1,2]", "[2,1]", "[1,2,3]", r#"{"a":1}"#, r#"{"a":1,"b":2}"#, r#"{"b":2}"#, r#"{"a":1.0}"#,
+    r#"[{"a":1},{"b":2}]"#, r#"[{"b":2},{"a":1}]"#, "[[1],[2]]", "[[1,2]]", "[[2],[1]]", r#"["a",null,true,false]"#, r#"[null,true,false,""]"#, r#"{"":[],"a":{}}"#,
+];
+
 pub const EDGE_DOCS: &[&str] = &[
     r#"{"":null}"#, r#"{"":true,"a":false}"#, r#"[1,{"":null}]"#, r#"{"k":{"":{"":true}}}"#, r#"{"":"","a":""}"#,
     r#"[[""]]"#, r#"{"a":[""]}"#, r#"["x",[""]]"#, r#"[1,[2,[""]]]"#, r#"[[],{}]"#, r#"[{}]"#, r#"[[]]"#, r#"[{},[]]"#,
